@@ -8,6 +8,10 @@ CLAIMED = {
    ref="5 C01", note="Trusted: SimStore semantics (cross-checked in C20), the FsModel comparison code, tmpfs for restore. Configurations come from the grid the library is meant to support.",
    tech="deterministic simulation: seeded gate scheduler over real threads + reference-model read-back"),
 }
+CLAIMED["C13"] = dict(cat="exploration",
+   text="Seeded simulation: the same backup (and, in another batch kind, the same prune) is executed R times from scratch under different gate-release policies (FIFO, random, starve-one-role, PCT), pariter pool sizes 1-3, pack-size limits from one blob per pack upward and compression settings; the snapshot tree id and the set of reachable (type,id) blobs must agree across executions, every execution must terminate (no-progress detector), and an independent decoder checks that every blob of every stored pack is indexed and every referenced blob is indexed in a live pack.",
+   ref="5 C13", note="Interleavings are explored at storage/source-call granularity plus one hook before a written pack is indexed; inside a step the threads run FIFO-serialised. Trusted: the simulator's own pack/index decoder.",
+   tech="deterministic simulation: same command re-executed under many seeded schedules, differential oracle + independent store audit")
 NOT_YET = {}
 NA = {
  "C09": "pure function of its arguments (snapshot list, keep options, explicit 'now'): no schedule, clock read, I/O, fault or history for a simulator to own; see DESIGN.md section 6",
